@@ -74,8 +74,10 @@ def run_program(stmts_src, header):
         slf = frame.f_locals.get("self")
         qual = frame.f_code.co_qualname
         on_sub = (slf is not None and "." in qual and
-                  type(slf).__name__ != qual.split(".")[0])
-        calls.append((qual, snap(arg), on_sub))
+                  type(slf).__qualname__ != qual.rsplit(".", 1)[0])
+        recv = (type(slf) if slf is not None else
+                frame.f_locals.get("cls"))
+        calls.append((qual, snap(arg), on_sub, recv))
 
   for h in header:
     exec(compile(h, "m.py", "exec"), ns)  # pylint: disable=exec-used
@@ -204,16 +206,16 @@ def check_program(ctx, prog, label="G"):
                     "%s.%s: stub type %s does not admit %r" % (
                         name, k, an_print(d), x), case)
   # module-level call results
-  for qual, val, on_subclass in calls:
+  for qual, val, on_subclass, recv in calls:
     parts = qual.split(".")
     if "<lambda>" in qual or "<locals>" in qual or "<listcomp>" in qual:
       continue
     f = None
     if len(parts) == 1:
       f = funcs.get(parts[0])
-    elif len(parts) == 2 and parts[0] in classes:
-      for m in classes[parts[0]].methods:
-        if m.name == parts[1]:
+    elif ".".join(parts[:-1]) in classes:
+      for m in classes[".".join(parts[:-1])].methods:
+        if m.name == parts[-1]:
           f = m
     if f is None:
       ctx.event("call-target-not-in-stub")
@@ -221,13 +223,28 @@ def check_program(ctx, prog, label="G"):
     if parts[-1] == "__init__":
       continue
     rets = [s.return_type for s in f.signatures]
-    ok = any(O.admits(t, val) for t in rets)
+    ok = any(admits_return(O, s, val, recv) for s in f.signatures)
     ctx.check(ok, "stub-type-excludes-runtime-value:call-result" + (
         ":inherited-method-on-subclass-instance" if on_subclass else ""),
               "%s() returned %r but the stub declares %s" % (
                   qual, val, [an_print(t) for t in rets]), case)
   if O.unmodelled:
     ctx.event("unmodelled-type-checks", len(O.unmodelled))
+
+
+def admits_return(O, sig, val, recv):
+  """Return type of one signature against the returned value; a TypeVar that
+  is also the type of self / cls stands for the receiver's class."""
+  from pytype.pytd import pytd
+  rt = sig.return_type
+  if (isinstance(rt, pytd.TypeParameter) and sig.params and
+      isinstance(recv, type)):
+    p0 = sig.params[0].type
+    if isinstance(p0, pytd.GenericType) and p0.parameters:
+      p0 = p0.parameters[0]
+    if isinstance(p0, pytd.TypeParameter) and p0.name == rt.name:
+      return isinstance(val, recv)
+  return O.admits(rt, val)
 
 
 def class_attr_behind_instance_store(src, name, ns):
@@ -298,6 +315,21 @@ def an_print(t):
 
 
 FIXED = [
+    # nested class named like a module-level class; a method returns the
+    # module-level one (fix 3694df8)
+    """class Node:
+  v = 1
+class Outer:
+  class Node:
+    w = "s"
+    def up(self):
+      return Node()
+    def me(self):
+      return self
+n = Outer.Node()
+o = n.up()
+p = n.me()
+""",
     # defaults mutated in the callee, conditional attributes, global rebinding
     """def f(a, b=None):
   if b is None:
